@@ -29,4 +29,18 @@ CHECKS = {
         "note": "Trusted: clvmr serde. Multi-MiB contents are compared by digest; TLC sees length and prefix only.",
         "technique": "TLA+ spec (Serialize) + TLC exhaustive byte strings + replay into sexp_from_stream/sexp_to_stream + trace validation",
     },
+    "C09": {
+        "level": "model_checking",
+        "text": "Printers.tla models both printers and both readers at token level; TLC asserts the classic round trip (versions 0,1,2, operator and non-operator position) and the modern round trips for every atom of <= 2 bytes and boundary atoms beyond; every enumerated atom is replayed alone/head/non-head/tail through disassemble->assemble, to_string->parse_sexp and to_string->assemble; random trees are trace-validated.",
+        "design_ref": "DESIGN.md section 4 C09",
+        "note": "Trusted: nothing beyond the property's own round-trip statement; the token model is only used for drift and for the bounded model check. The sentence about the command-line compiler's printed text is exercised by C11's entry-point comparison.",
+        "technique": "TLA+ spec (Printers, OpTables) + TLC exhaustive atoms + replay into disassemble/assemble/Display/parse_sexp + trace validation",
+    },
+    "C20": {
+        "level": "model_checking",
+        "text": "The tables of the running code are dumped as rows and folded by TLC (Trace_OpTables) into sets on which the invariants are evaluated: inverse per version, monotone versions, one opcode per name across assembler, disassembler, both compilers, stepper table and #name syntax, every opcode implemented by the evaluator of its version. The space is finite and covered completely.",
+        "design_ref": "DESIGN.md section 4 C20",
+        "note": "Trusted: clvmr (an opcode is implemented iff the runner does not answer 'unimplemented operator'). The compiler clause is behavioural and one-directional.",
+        "technique": "TLA+ spec (OpTables) + TLC evaluation of invariants over tables observed from the code (trace validation)",
+    },
 }
